@@ -577,3 +577,114 @@ pub fn fifo_with(root: &Path, data: &[u8]) -> Option<PathBuf> {
     });
     Some(p)
 }
+
+// ---------------------------------------------------------------- terminals
+
+/// Runs the executable with a pseudo-terminal as standard output and/or standard input - what a user at a shell
+/// prompt has. Output processing is off (no NL -> CR NL), so the bytes read from the master are the bytes written.
+/// Terminal input is "typed": canonical mode without echo, the text followed by the end-of-file character(s); it
+/// must consist of lines shorter than 4096 bytes without control characters other than the line feed.
+/// Returns None when the pseudo-terminal cannot be set up or the run does not end in time (never a verdict).
+pub fn run_tty(exe: &Path, args: &[&str], stdin_data: &[u8], stdin_tty: bool, stdout_tty: bool) -> Option<CliOut> {
+    use std::os::fd::{FromRawFd, OwnedFd};
+    unsafe fn open_pty(raw_output: bool, echo: bool) -> Option<(OwnedFd, OwnedFd)> {
+        let (mut m, mut s) = (0, 0);
+        if libc::openpty(&mut m, &mut s, std::ptr::null_mut(), std::ptr::null_mut(), std::ptr::null_mut()) != 0 {
+            return None;
+        }
+        let mut t: libc::termios = std::mem::zeroed();
+        if libc::tcgetattr(s, &mut t) != 0 {
+            return None;
+        }
+        if raw_output {
+            t.c_oflag &= !libc::OPOST;
+        }
+        if !echo {
+            t.c_lflag &= !(libc::ECHO | libc::ECHOE | libc::ECHOK | libc::ECHONL);
+        }
+        libc::tcsetattr(s, libc::TCSANOW, &t);
+        Some((OwnedFd::from_raw_fd(m), OwnedFd::from_raw_fd(s)))
+    }
+    let mut cmd = Command::new(exe);
+    cmd.args(args).env_clear().env("RUST_BACKTRACE", "0").env("TERM", "xterm").stderr(Stdio::piped());
+    let mut out_master = None;
+    if stdout_tty {
+        let (m, s) = unsafe { open_pty(true, false) }?;
+        cmd.stdout(Stdio::from(s));
+        out_master = Some(m);
+    } else {
+        cmd.stdout(Stdio::piped());
+    }
+    let mut in_master = None;
+    if stdin_tty {
+        let (m, s) = unsafe { open_pty(true, false) }?;
+        cmd.stdin(Stdio::from(s));
+        in_master = Some(m);
+    } else {
+        cmd.stdin(Stdio::piped());
+    }
+    let mut child = cmd.spawn().ok()?;
+    drop(cmd); // closes our copies of the slave ends
+    // input
+    let data = stdin_data.to_vec();
+    let pipe_in = child.stdin.take();
+    let feeder = std::thread::spawn(move || {
+        if let Some(m) = in_master {
+            let mut f = std::fs::File::from(m);
+            let _ = f.write_all(&data);
+            // end of file: once at the start of a line, twice after an unfinished line
+            let _ = f.write_all(if data.last() == Some(&b'\n') || data.is_empty() { b"\x04" } else { b"\x04\x04" });
+            // keep the master open until the child has had time to read; closing it hangs up the terminal
+            std::thread::sleep(Duration::from_millis(1500));
+        } else if let Some(mut p) = pipe_in {
+            let _ = p.write_all(&data);
+        }
+    });
+    // output: read the master until the child is gone and the terminal reports EIO / EOF
+    let reader = out_master.map(|m| {
+        std::thread::spawn(move || {
+            use std::io::Read;
+            let mut f = std::fs::File::from(m);
+            let mut out = vec![];
+            let mut buf = [0u8; 65536];
+            loop {
+                match f.read(&mut buf) {
+                    Ok(0) | Err(_) => break,
+                    Ok(n) => out.extend_from_slice(&buf[..n]),
+                }
+            }
+            out
+        })
+    });
+    let start = Instant::now();
+    let status = loop {
+        match child.try_wait() {
+            Ok(Some(s)) => break Some(s),
+            Ok(None) if start.elapsed() > Duration::from_secs(20) => {
+                let _ = child.kill();
+                let _ = child.wait();
+                break None;
+            }
+            Ok(None) => std::thread::sleep(Duration::from_millis(2)),
+            Err(_) => break None,
+        }
+    };
+    let mut stdout = vec![];
+    let mut stderr = vec![];
+    {
+        use std::io::Read;
+        if let Some(mut e) = child.stderr.take() {
+            let _ = e.read_to_end(&mut stderr);
+        }
+        if let Some(mut o) = child.stdout.take() {
+            let _ = o.read_to_end(&mut stdout);
+        }
+    }
+    if let Some(r) = reader {
+        stdout = r.join().ok()?;
+    }
+    drop(feeder); // detached: it only sleeps and closes the master
+    let status = status?;
+    use std::os::unix::process::ExitStatusExt;
+    Some(CliOut { code: status.code(), signal: status.signal(), stdout, stderr, timed_out: false, hang: None, ambient: vec![], stdin_kind: if stdin_tty { "terminal" } else { "pipe" } })
+}
